@@ -31,6 +31,9 @@ def rand_value(rng, width):
         for i in range((width + 7) // 8):
             v = (v << 8) | ((0x11 * (i + 1)) & 0xFF)
         return v & full
+    if r < 0.45 and width > 8:
+        # uniform in magnitude: interior ranges of a wide field (a 28-bit LBA in a 48-bit field) are as likely as its top range
+        return rng.getrandbits(rng.randint(1, width))
     return rng.getrandbits(width) if width else 0
 
 
